@@ -219,6 +219,12 @@ def h17(S, two_connections=None, backend="mem"):
         S.check("exactly-one-before-and-one-after", names == [f"before_{op}", f"after_{op}"], info=f"{op}/{style}/{sub}: {names}")
     else:
         S.check("exactly-one-before-no-after-on-failure", names == [f"before_{op}"], info=f"{op}: {names}")
+    if sub == "sync-subset" and names[:1] == [f"before_{op}"] and PARAMS[op]:
+        # a synchronous subscriber that asks for the first argument only receives exactly that one
+        first = PARAMS[op][0]
+        S.cover("sync-subscriber-arguments")
+        S.check("before-signal-carries-arguments-by-name", log[0][1] == {first: out["named"].get(first)},
+                info=f"{op}/{style}: sync subscriber received {log[0][1]!r}")
     if sub in ("async-all-args", "slow", "raising", "extra-default-param") and names[:1] == [f"before_{op}"]:
         for k_ in PARAMS[op]:
             out["named"].setdefault(k_, None)
@@ -238,7 +244,7 @@ def h17_nested(S):
     from repid.data._key import RoutingKey
     import repid.data._parameters as P
 
-    which = S.pick("scenario", 8)
+    which = S.pick("scenario", 9)
     log = []
     S.tag("scenario", which)
 
@@ -270,6 +276,30 @@ def h17_nested(S):
                 await c.message_broker.queue_declare("default")
                 await c.message_broker.enqueue(RoutingKey(topic="job", queue="default", id_=n), "p", None)
             log.extend(hears)
+            return
+        elif which == 8:
+            # a worker processing a job whose arguments travel through a bucket: fetching them is a bucket operation like any other
+            from repid import InMemoryMessageBroker, Router, Worker
+            from repid.converter import BasicConverter
+            conn = Connection(InMemoryMessageBroker(), InMemoryBucketBroker())
+            await conn.message_broker.queue_declare("default")
+            heard = []
+            from repid.middlewares import SUBSCRIBERS_NAMES
+            for name in sorted(SUBSCRIBERS_NAMES):
+                async def f(name=name, **kw):
+                    heard.append(name)
+                f.__name__ = name
+                conn.middleware.add_subscriber(f)
+            r = Router()
+
+            @r.actor(converter=BasicConverter)
+            async def job(x: int):
+                return x
+
+            await Job("job", args={"x": 1}, id_="j1", _connection=conn).enqueue()
+            heard.clear()
+            await asyncio.wait_for(Worker(routers=[r], handle_signals=[], _connection=conn, messages_limit=1, auto_declare=False).run(), timeout=5)
+            log.extend(x for x in heard if "consume" not in x)
             return
         elif which == 7:
             # a live consumer of connection A keeps reporting to A when another connection is constructed later
@@ -381,6 +411,8 @@ def h17_nested(S):
         S.check("nested-operations-emit-nothing", log == ["before_requeue", "after_requeue"], info=str(log))
     elif which == 4:
         S.check("consumer-side-dead-lettering-is-signalled", [x for x in log if "nack" in x] == ["before_nack", "after_nack"], info=str(log))
+    elif which == 8:
+        S.check("worker-side-bucket-fetch-is-signalled", log == ["before_get_bucket", "after_get_bucket", "before_actor_run", "after_actor_run", "before_ack", "after_ack"], info=str(log))
     elif which == 7:
         S.check("a-live-consumer-keeps-reporting-to-its-own-connection", log == [("A", ["before_consume", "after_consume"]), ("B", [])], info=str(log))
     elif which == 6:
@@ -410,7 +442,7 @@ HARNESSES = [
     Harness(name="H17-observe-rabbit", scenario=h17, workers=16, budget_s=900, params={"quick": {"backend": "rabbit"}, "thorough": {"backend": "rabbit"}},
             bounds={"as H17-observe": "on RabbitMessageBroker over the fake AMQP channel"},
             functions=["connections/rabbitmq/message_broker.py:RabbitMessageBroker.requeue"], covers=["performed"], stubs=["fake AMQP server"]),
-    Harness(name="H17-nested", scenario=h17_nested, bounds={"scenarios": "RabbitMQ requeue (ack + publish inside), Job.enqueue with an args bucket, a failed operation followed by another one in the same task, a cancelled consume followed by another operation, a Redis consumer dead-lettering an expired message, one middleware object shared by two connections, the same broker objects wrapped by a second Connection, a consumer alive while another connection is constructed"},
+    Harness(name="H17-nested", scenario=h17_nested, bounds={"scenarios": "RabbitMQ requeue (ack + publish inside), Job.enqueue with an args bucket, a failed operation followed by another one in the same task, a cancelled consume followed by another operation, a Redis consumer dead-lettering an expired message, one middleware object shared by two connections, the same broker objects wrapped by a second Connection, a consumer alive while another connection is constructed, a worker fetching a job's argument bucket"},
             covers=["nested"], stubs=["fake AMQP channel"]),
 ]
 ASSUMPTIONS = ["differential oracle: the same operation on an identically prepared connection without subscribers", "selectors are discrete (enumeration)"]
